@@ -100,6 +100,15 @@ def run(tier, seed):
         bad = check_oracle_factorisation(res)
         if bad: chk.broken_obligation('assumption:output-predicate-implies-same-type', bad[:3])
         if sig: chk.violation(sig, {'a': c['a'], 'b': c['b']}, detail)
+    # the file interface again under a non-UTF-8 locale (C locale, UTF-8 mode off), on pairs with non-ASCII text
+    nonascii = [c for c in cases if any(ord(ch) > 127 for ch in json.dumps(c['b'], ensure_ascii=False))][:(12 if tier == 'quick' else 150)]
+    loc_env = {'LC_ALL': 'C', 'LANG': 'C', 'PYTHONUTF8': '0', 'PYTHONCOERCECLOCALE': '0', 'PYTHONIOENCODING': ''}
+    loc_res = core.run_impl([{'op': 'nbdiff_patch', 'a': c['a'], 'b': c['b'], 'files': True} for c in nonascii],
+                            shards=6, env_extra=loc_env)
+    for c, res in zip(nonascii, loc_res):
+        sig, detail = judge(c, res)
+        if sig: chk.violation(sig + '@C-locale', {'a': c['a'], 'b': c['b'], 'env': loc_env}, detail)
+    chk.cov['file_interface_cases_c_locale'] = len(nonascii)
     # T1: model vs implementation
     t1 = 0; mism = 0
     if getattr(b, 'model_ok', False):
